@@ -407,6 +407,7 @@ func cmdCheck(args []string) int {
 	}
 	var mu sync.Mutex
 	var harnessErr error
+	var fatals []fatalCase
 	next := 0
 	skipped := int64(0)
 	var wg sync.WaitGroup
@@ -416,7 +417,7 @@ func cmdCheck(args []string) int {
 			defer wg.Done()
 			for {
 				mu.Lock()
-				if next >= len(jobsList) || harnessErr != nil || len(a.fails) >= 6 {
+				if next >= len(jobsList) || harnessErr != nil || len(a.fails) >= 6 || len(fatals) >= 3 {
 					mu.Unlock()
 					return
 				}
@@ -451,6 +452,20 @@ func cmdCheck(args []string) int {
 							continue
 						}
 						a.add(l)
+					}
+					if err != nil && e.prop == "C05" && strings.Contains(stderr, "fatal error:") {
+						// The code under test killed the process outright (a fatal error such as a stack overflow cannot be
+						// recovered): for C05, "no script ... can crash the daemon", that is the violation itself. The case
+						// is the one after the last that reported back; the chunk goes on behind it.
+						idx := from
+						for _, l := range lines {
+							if l.StoppedAt == nil && l.I >= idx {
+								idx = l.I + 1
+							}
+						}
+						fatals = append(fatals, fatalCase{idx: idx, ff: j.ff, stderr: stderr})
+						stopped = idx + 1
+						err = nil
 					}
 					if err != nil {
 						harnessErr = fmt.Errorf("worker failed (%v) on %v: %s", err, args, truncate(stderr, 4000))
@@ -495,10 +510,35 @@ func cmdCheck(args []string) int {
 		return a.fails[i].I < a.fails[j].I
 	})
 	violations := 0
+	fatalExit := 0
+	for _, fc := range fatals {
+		// confirm in a fresh process: the single case must kill it again
+		args := []string{"run", "-prop", e.prop, "-tier", e.tier, "-seed", strconv.FormatUint(e.seed, 10), "-from", strconv.FormatInt(fc.idx, 10), "-n", "1", "-outdir", e.faildir}
+		if fc.ff {
+			args = append(args, "-faultfree")
+		}
+		_, stderr, err := e.runWorker(args...)
+		if err == nil || !strings.Contains(stderr, "fatal error:") {
+			fmt.Fprintf(os.Stderr, "kapsim: HARNESS FAILURE (non-reproducible, exit 2): a worker died with a fatal error, case %d alone does not: %s\n", fc.idx, truncate(fc.stderr, 1500))
+			return 2
+		}
+		rf := map[string]interface{}{"property": e.prop, "tier": e.tier, "fault_free": fc.ff, "base_seed": e.seed, "run_index": fc.idx, "process_fatal": true,
+			"class": "process-killed", "detail": "the code under test killed the process: " + truncate(firstLines(stderr, 6), 1200)}
+		b, _ := json.MarshalIndent(rf, "", " ")
+		dst := filepath.Join(e.out(), "replays", fmt.Sprintf("%s-fatal-%d-%d.json", e.prop, e.seed, fc.idx))
+		os.MkdirAll(filepath.Dir(dst), 0755)
+		if err := os.WriteFile(dst, b, 0644); err != nil {
+			fmt.Fprintln(os.Stderr, "kapsim: cannot store replay file:", err)
+			return 2
+		}
+		fmt.Printf("VIOLATION property=%s replay=%s\n", e.prop, dst)
+		fmt.Printf("  class=process-killed base_seed=%d run_index=%d fault_free=%v\n  %s\n", e.seed, fc.idx, fc.ff, truncate(firstLines(stderr, 6), 1200))
+		fatalExit = 1
+	}
 	knownHit := map[string]int{}
 	inconclusive := 0
 	reported := map[string]bool{}
-	exit := 0
+	exit := fatalExit
 	// one representative per known finding is confirmed and kept as a replay file too
 	seenKnown := map[string]bool{}
 	var todo []line
@@ -637,7 +677,7 @@ func cmdCheck(args []string) int {
 		"seed":        e.seed,
 		"level":       "exploration",
 		"wall_s":      wall,
-		"violations":  violations,
+		"violations":  violations + len(fatals),
 		"assumptions": meta["assumptions"],
 	}
 	faults := map[string]int64{}
@@ -796,6 +836,20 @@ func keepCopy(src, dir string) {
 }
 
 // cmdReplay re-executes a replay file against the current tree; exits 1 if the violation reproduces.
+type fatalCase struct {
+	idx    int64
+	ff     bool
+	stderr string
+}
+
+func firstLines(s string, n int) string {
+	ls := strings.Split(s, "\n")
+	if len(ls) > n {
+		ls = ls[:n]
+	}
+	return strings.Join(ls, "\n")
+}
+
 func cmdReplay(args []string) int {
 	fs := flag.NewFlagSet("replay", flag.ExitOnError)
 	repo := fs.String("repo", "/repo", "")
@@ -831,11 +885,34 @@ func cmdReplay(args []string) int {
 		Property string `json:"property"`
 		Class    string `json:"class"`
 		Trace    uint64 `json:"trace_hash"`
+		Fatal    bool   `json:"process_fatal"`
+		Tier     string `json:"tier"`
+		FF       bool   `json:"fault_free"`
+		Seed     uint64 `json:"base_seed"`
+		Index    int64  `json:"run_index"`
 	}
 	b, err := os.ReadFile(file)
 	if err != nil || json.Unmarshal(b, &rf) != nil {
 		fmt.Fprintln(os.Stderr, "kapsim: cannot read replay file")
 		return 2
+	}
+	if rf.Fatal {
+		// a case that killed the process: it is regenerated from (seed, index) and must kill a fresh process again
+		args := []string{"run", "-prop", rf.Property, "-tier", rf.Tier, "-seed", strconv.FormatUint(rf.Seed, 10), "-from", strconv.FormatInt(rf.Index, 10), "-n", "1", "-outdir", filepath.Join(e.scratch, "data")}
+		if rf.FF {
+			args = append(args, "-faultfree")
+		}
+		_, stderr, err := e.runWorker(args...)
+		if err != nil && strings.Contains(stderr, "fatal error:") {
+			fmt.Printf("VIOLATION property=%s replay=%s\n  class=process-killed (reproduced)\n  %s\n", rf.Property, file, truncate(firstLines(stderr, 6), 1200))
+			return 1
+		}
+		if err != nil {
+			fmt.Fprintf(os.Stderr, "kapsim: replay failed: %v %s\n", err, truncate(stderr, 1500))
+			return 2
+		}
+		fmt.Printf("replay: property=%s holds on this tree for the recorded case (recorded class=%s)\n", rf.Property, rf.Class)
+		return 0
 	}
 	lines, stderr, err := e.runWorker("replay", "-file", file)
 	if err != nil || len(lines) != 1 {
